@@ -455,6 +455,7 @@ func checkC15(c *ev.Ctx) {
 	c.Set("xz_cli", xzcli())
 	par(n, func(i int) {
 		id := fmt.Sprintf("i%d", i)
+		noteCase(id)
 		if !want(c, id) {
 			return
 		}
@@ -628,6 +629,7 @@ func checkC15(c *ev.Ctx) {
 	run := func(k int) {
 		t := rts[k]
 		id := fmt.Sprintf("rt-%s-%d", t.f, t.p)
+		noteCase(id)
 		if !want(c, id) {
 			return
 		}
@@ -727,6 +729,7 @@ func checkC15(c *ev.Ctx) {
 	// stdin -> stdout
 	for k, f := range []string{"xz", "lzma"} {
 		id := "stdin-" + f
+		noteCase(id)
 		if !want(c, id) {
 			continue
 		}
